@@ -11,10 +11,10 @@ import (
 func init() { Registry["C18"] = runC18 }
 
 const (
-	tServiceError   = an.Mod + "/pkg.ServiceError"
-	tHTTPErrorResp  = an.Mod + "/http.ErrorResponse"
-	tGRPCErrorResp  = an.Mod + "/grpc/pb.ErrorResponse"
-	explanationC18  = "Decides structural necessary conditions of C18 on the source: (R18.1) MergeErrors' nil-identity rows and per-field merge operators (flags stored as the conjunction of both operands, message concatenated left-to-right, history appended in order, causes joined from both sides, name replaced only for the generic name) on every path of its SSA path table; (R18.2) the HTTP status decision table of ErrorResponse.StatusCode over all 8 flag vectors x special name; (R18.3) the gRPC code table of EncodeError over all flag vectors and error kinds; (R18.4) like-named field fidelity and exhaustiveness of the four wire conversions (http.NewErrorResponse, ErrorResponse.MarshalXML, grpc.NewErrorResponse, grpc.NewServiceError); (R18.5) the client-side classification table of ErrInvalidResponse. NOT decided: associativity of merging as a semantic law over arbitrary groupings (it follows from the checked operators being associative, an argument not a machine proof), the behaviour of errors.Join/errors.As, and value-level round trips."
+	tServiceError  = an.Mod + "/pkg.ServiceError"
+	tHTTPErrorResp = an.Mod + "/http.ErrorResponse"
+	tGRPCErrorResp = an.Mod + "/grpc/pb.ErrorResponse"
+	explanationC18 = "Decides structural necessary conditions of C18 on the source: (R18.1) MergeErrors' nil-identity rows and per-field merge operators (flags stored as the conjunction of both operands, message concatenated left-to-right, history appended in order, causes joined from both sides, name replaced only for the generic name) on every path of its SSA path table; (R18.2) the HTTP status decision table of ErrorResponse.StatusCode over all 8 flag vectors x special name; (R18.3) the gRPC code table of EncodeError over all flag vectors and error kinds; (R18.4) like-named field fidelity and exhaustiveness of the four wire conversions (http.NewErrorResponse, ErrorResponse.MarshalXML, grpc.NewErrorResponse, grpc.NewServiceError); (R18.5) the client-side classification table of ErrInvalidResponse. NOT decided: associativity of merging as a semantic law over arbitrary groupings (it follows from the checked operators being associative, an argument not a machine proof), the behaviour of errors.Join/errors.As, and value-level round trips."
 )
 
 var (
